@@ -91,6 +91,11 @@ func stmts(s *S, ch chan int) (r int) {
 	{
 		pr(123)
 	}
+	if z2 := pr(1240); false {
+		pr(1241 + z2)
+	} else if z3 := pr(1242); true {
+		pr(1243 + z3)
+	}
 	if z := pr(124); pb(125) {
 		pr(126)
 	} else if pb(127) {
@@ -203,6 +208,19 @@ func runC01(c *Ctx) error {
 	var cases []*walkCase
 	for i, src := range c01Handwritten {
 		wc, err := mkWalkCase(fmt.Sprintf("hand%d.go", i), []byte(src))
+		if err != nil {
+			return err
+		}
+		cases = append(cases, wc)
+	}
+	// generated files of nested ifs with constant / non-constant conditions, init statements, function literals
+	ifRng := hx.Rng(c.Seed, "c01-ifs")
+	nIfs := 12
+	if c.Thorough {
+		nIfs = 200
+	}
+	for i := 0; i < nIfs; i++ {
+		wc, err := mkWalkCase(fmt.Sprintf("ifs%d.go", i), []byte(genIfFile(ifRng, 2+ifRng.Intn(4))))
 		if err != nil {
 			return err
 		}
